@@ -160,7 +160,9 @@ def run(tier, seed):
     res = Result("C08", tier, seed)
     work = Work("C08")
     try:
+        t_phase = [time.time()]
         ok, blog = coq_build(["props/C08.vo", "corr/C08corr.vo"])
+        t_phase.append(time.time())
         proofs_ok, pa = proof_obligations(work, res, "C08.v", ok, blog)
         gate = m4x.gate_for(["props/C08.v", "corr/C08corr.v"])
         if gate:
@@ -175,7 +177,9 @@ def run(tier, seed):
             corr_broken.append("harness custom 503 page is not custom503[{{ .Message }}]")
         hists, mats, raws = gen_histories(seed, tier)
         scenarios = [m4.to_scenario(h, m) for h, m in zip(hists, mats)]
+        t_phase.append(time.time())
         harness_ok, gout, outs = m4x.go_run(work, scenarios)
+        t_phase.append(time.time())
         results = []
         if harness_ok and ok and page is not None:
             pre, suf = page[0], page[4]
@@ -194,6 +198,7 @@ def run(tier, seed):
                     "c08_body_mismatches env ig fixed h, c08_snapshot_mismatches fixed h, c08_monitor env h, "
                     "(stopped_answers_from ig fixed init_state (upto_panic h), stopped_judged_from [] (upto_panic h)))")
             results = m4x.coq_map(work, IMPORTS, defs, terms, expr, "C08", shard=4)
+        t_phase.append(time.time())
         # ---- judge
         mon_fail, disagree = [], []
         n_stopped_model = n_stopped_mon = 0
@@ -232,6 +237,8 @@ def run(tier, seed):
             "outcome_distribution": {"status": statuses,
                                      "answers_for_stopped_service_compared_with_render503": n_stopped_model,
                                      "requests_judged_against_a_stopped_service_by_monitor": n_stopped_mon},
+            "phase_s": dict(zip(["coq_build_incl_lock_wait", "proof_obligations_and_generation", "go_harness", "coq_evaluation"],
+                                [round(b - a, 1) for a, b in zip(t_phase, t_phase[1:])])),
             "samples": [{"history": [m4.cmd_term(c) for c in hists[0]][:6]}],
             "correspondence": {"histories": len(hists), "model_disagreements": len(disagree),
                                "monitor_failures": len(mon_fail), "page_shape_ok": page is not None},
